@@ -4,6 +4,7 @@ import Goirc.Spec.NickScript
 import Goirc.Spec.Register
 import Goirc.Spec.Life
 import Goirc.Spec.Send
+import Goirc.Spec.Dispatch
 /-! Driver requests that evaluate the C17–C20 Specs on implementation output. -/
 namespace Driver
 open Go Go.Client
@@ -17,7 +18,8 @@ structure NsState where
 def nsEv (ws : List String) : Option Spec.NickScript.Ev :=
   match ws with
   | ["433", r] => do pure (.s433 (← hexDecode r))
-  | ["001", n] => do pure (.s001 (← hexDecode n))
+  | ["001", n] => do pure (.s001 (← hexDecode n) true)
+  | ["001nomask", n] => do pure (.s001 (← hexDecode n) false)
   | ["nick", n] => do pure (.sNick (← hexDecode n))
   | ["other", f, t] => do pure (.sOther (← hexDecode f) (← hexDecode t))
   | _ => none
@@ -62,6 +64,21 @@ def specHandle (ws : List String) : Option String :=
     let w ← pairs wire
     let items : List Go.Send.Item := w.map fun (a, b) => ⟨a, b⟩
     pure (okFail (if final == "1" then Spec.Send.okComplete iss items else Spec.Send.okPrefix (iss.map (·.1)) items))
+  | ["spec03", evs] => do
+    let ev (t : String) : Option Go.Dispatch.Obs :=
+      match t.splitOn ":" with
+      | ["E", k, h, a] => do pure (.fgEnter (← k.toNat?) (← h.toNat?) (← a.toNat?))
+      | ["X", k, h, a] => do pure (.fgExit (← k.toNat?) (← h.toNat?) (← a.toNat?))
+      | ["B", k, h, a] => do pure (.bgEnter (← k.toNat?) (← h.toNat?) (← a.toNat?))
+      | ["CE", k, h] => do pure (.connEnter (← k.toNat?) (← h.toNat?))
+      | ["CX", k, h] => do pure (.connExit (← k.toNat?) (← h.toNat?))
+      | ["W", k] => do pure (.welcomeApplied (← k.toNat?))
+      | ["D"] => some .discEnter
+      | _ => none
+    let l ← (if evs == "_" then some [] else (evs.splitOn ",").mapM ev)
+    pure (if Spec.Dispatch.ok l then "ok" else
+      "fail:" ++ (if !Spec.Dispatch.serial l none then "serial " else "") ++ (if !Spec.Dispatch.connAfterWelcome l [] then "connAfterWelcome " else "")
+        ++ (if !Spec.Dispatch.nothingAfterDisc l false then "nothingAfterDisc " else "") ++ (if !Spec.Dispatch.trackerTiming l then "trackerTiming" else ""))
   | ["spec06", final, evs] => do
     let l ← (if evs == "_" then some [] else (evs.splitOn ",").mapM lifeEv)
     pure (okFail (if final == "1" then Spec.Life.okFinal l else Spec.Life.okPrefix l))
